@@ -332,7 +332,8 @@ def dup_case(ctx, k):
             return
         if shape == "text-equals-expanded-name":
             nm = ad["name"]
-            argv = ad["argv"] + ["-o", "t.{name}.fq", rng.choice(["--info-file", "--rest-file"]), f"t.{nm}.fq", "--json", "rep.json"] + (["-j", "2"] if rng.random() < 0.3 else []) + inputs
+            text_opt = rng.choice(["--info-file", "--rest-file", "--json"])
+            argv = ad["argv"] + ["-o", "t.{name}.fq", text_opt, f"t.{nm}.fq"] + (["--json", "rep.json"] if text_opt != "--json" else []) + (["-j", "2"] if rng.random() < 0.3 else []) + inputs
             run = climon.run(d, argv, tag="dup", trace=False)
             ctx.count("duplicate_path_runs")
             ctx.case(("dup", str(argv), shape))
@@ -343,6 +344,13 @@ def dup_case(ctx, k):
                 return
             fo = run.records(f"t.{nm}.fq")
             want_n = sum(1 for key, f in [(None, None)] if False)   # computed below
+            if text_opt == "--json":
+                # the report itself sits where the reads should be: nothing to read the count from, the file must hold records
+                got = len(fo[1]) if fo and fo[0] != "error" and fo[1] else None
+                if got is None:
+                    ctx.violation("duplicate-path-clobbered", f"the JSON report and the demultiplexed file of adapter {nm} are one path; exit 0, the file holds no "
+                                  f"parseable records; argv={argv}", case, facts=dict(shape=shape))
+                return
             trimmed = run.json_report()["read_counts"]["read1_with_adapter"]
             got = len(fo[1]) if fo and fo[0] != "error" else None
             if got != trimmed:
